@@ -171,6 +171,24 @@ pub fn build<C: BlsSignatureImpl + Clone>(lib: &Lib, c: &Value, rng: &mut ChaCha
                 ct.u = <C as Pairing>::PublicKey::generator() * r;
                 ct.w = <C as BlsSignCrypt>::compute_w(ct.u, &ct.v, dst_of::<C>(ct.scheme)) * r;
             }
+            "CraftFrame" => {
+                // a valid ciphertext made by a malicious sender: the frame carries a crafted length prefix
+                let mut frame: Vec<u8> = match gets(o, "arg") {
+                    "over1" => leb128(40),                                   // declares 40, 31 follow
+                    "half_max" => leb128(1u64 << 63),
+                    "usize_max" => leb128(u64::MAX),
+                    "max_minus_used" => leb128(u64::MAX - 9),               // overhead + len wraps to a small number
+                    "overlong" => vec![0x80; 12],                            // no terminating byte within 10
+                    _ => vec![0xff; 32],
+                };
+                while frame.len() < 32 {
+                    frame.push(0x41);
+                }
+                let r = sc::<C>(rng.gen_range(2..1_000_000));
+                ct.u = <C as Pairing>::PublicKey::generator() * r;
+                ct.v = <C as BlsSignCrypt>::compute_v(pk.0 * r, &frame);
+                ct.w = <C as BlsSignCrypt>::compute_w(ct.u, &ct.v, dst_of::<C>(ct.scheme)) * r;
+            }
             x => panic!("signcrypt: unknown op {x}"),
         }
     }
@@ -190,6 +208,7 @@ fn class_ok(want: &str, got: &str) -> bool {
         "Some" => got == "Some",
         "None" => got == "None",
         "NotOriginal" => got != "Some",
+        "Any" => true,
         _ => false,
     }
 }
@@ -272,7 +291,8 @@ where
                 let ub = enc_k::<C>(&c.u);
                 let rv = ref_valid::<R>(&rf, &ub, &c.v, &enc_s::<C>(&c.w), scheme_str(c.scheme));
                 let rexp = if rv { ref_open_with_point::<R>(&(R::dec_k(&ub).unwrap() * rscalar(k2)), &c.v) } else { None };
-                if rexp != bytes {
+                let crafted = geta(&v["ct"], "ops").iter().any(|o| gets(o, "op") == "CraftFrame");
+                if rexp != bytes && !crafted {
                     return Outcome::fail(json!({"lib": got}), "decryption result differs from the independent implementation");
                 }
                 o.extra += 1;
